@@ -240,6 +240,7 @@ fn build(cfg: &Cfg, keep_strategy: bool) -> Session {
     let mut ed = Editor::new(engine(cfg.engine_kind, &conv_log), dict, LaxUserFreqEstimate::new(cfg.time), abbr, sym_sel);
     ed.set_syllable_editor(Box::new(SharedLayout(lay.clone())));
     ed.set_editor_options(if keep_strategy { cfg.opts } else { engine_opts(cfg.opts, cfg.engine_kind) });
+    crate::register_user(&conv_log, user_ptr);
     Session { ed, lay, conv_log, user: user_ptr, sys: cfg.sys.clone(), layout_kind: cfg.layout_kind, probes, engine_kind: cfg.engine_kind }
 }
 
